@@ -545,7 +545,9 @@ pub fn run_mode(opts: &Options, prop: &str) -> Report {
                     }
                 }
                 // never adopted piecemeal: tip and index are still those of the old branch
-                if let Some(bi) = branch_of_tip(&node, branches, 0) {
+                // (with several peers another peer may have moved the tip to the new branch before
+                // a lagging peer's proof is taken for a long fork: only the abort is wrong then)
+                if let Some(bi) = branch_of_tip(&node, branches, 0).filter(|_| n_peers == 1) {
                     if bi == serving && serving != 0 {
                         // the tip is on the new branch only if it is on the shared prefix
                         let tip = node.i().storage.get_tip_header().calc_header_hash();
